@@ -303,7 +303,13 @@ func (g *progGen) addr() string {
 	return base + tail
 }
 
+// names that no program ever defines (a callee in another object file, a dangling jump target)
+var undefinedTargets = []string{"_extfn", "nowhere", "_memcpy", "undefined_lbl"}
+
 func (g *progGen) target() string {
+	if g.r.Chance(1, 10) {
+		return pick(g.r, undefinedTargets)
+	}
 	if len(g.labels) == 0 {
 		return "0"
 	}
@@ -490,6 +496,15 @@ func (g *progGen) stmt() string {
 			return "\tOUT\tDX,AX"
 		}
 	case 9: // data
+		if r.Chance(1, 6) { // operand lists mixing kinds: number, (forward) label, label arithmetic, string, character
+			items := []string{g.imm(16), g.target(), g.target() + "+4", "\"AB\"", "'C'", "$", g.expr(1), "\"x\""}
+			n := r.Range(2, 4)
+			xs := make([]string, n)
+			for i := range xs {
+				xs[i] = pick(r, items)
+			}
+			return "\t" + pick(r, []string{"DB", "DW", "DD"}) + "\t" + strings.Join(xs, ", ")
+		}
 		switch r.Intn(5) {
 		case 0:
 			n := r.Range(1, 6)
